@@ -153,6 +153,13 @@ pub struct Scenario {
     pub irq_clears: Vec<u8>,
     pub rust_may_reject: Option<&'static str>,
     pub notes: Vec<&'static str>,
+    /// Signature attribution: a difference whose lowest register is `addr` is reported under
+    /// the operation that governs that register with that operation's minimal class, so one
+    /// defect yields the same signature whether it is seen alone or inside a flow.
+    pub attrib: Vec<(u8, &'static str, String)>,
+    /// Name used instead of the register number (multi-byte fields whose lowest differing
+    /// byte depends on the value).
+    pub reg_label: Option<&'static str>,
 }
 
 fn full_mask() -> [u8; 128] {
@@ -337,15 +344,13 @@ fn reference(cfg: Cfg, cell: &RefCell<Chip127>, steps: &[RStep]) -> bool {
 }
 
 fn regs_json(r: &[u8; 128], addrs: &[u8]) -> Value {
-    let mut m = serde_json_map();
-    for a in addrs {
-        m.insert(format!("0x{:02x}", a), json!(format!("{:02x}", r[*a as usize])));
+    let mut v = json!({});
+    if let Some(m) = v.as_object_mut() {
+        for a in addrs {
+            m.insert(format!("0x{:02x}", a), json!(format!("{:02x}", r[*a as usize])));
+        }
     }
-    Value::Object(m)
-}
-
-fn serde_json_map() -> lrv_core::serde_map::Map {
-    lrv_core::serde_map::Map::new()
+    v
 }
 
 pub fn compare(col: &mut Collector, sc: &Scenario) {
@@ -423,19 +428,33 @@ pub fn compare(col: &mut Collector, sc: &Scenario) {
         return;
     }
 
-    // register file
+    // register file: one violation per differing register (same signature reported once),
+    // so a known difference in one register cannot shadow a new one in another
     let diff: Vec<u8> = (0u8..128).filter(|a| (o.regs[*a as usize] ^ rf.regs[*a as usize]) & sc.mask[*a as usize] != 0).collect();
-    if let Some(a) = diff.first() {
+    let mut emitted: Vec<String> = Vec::new();
+    for a in &diff {
         let x = (o.regs[*a as usize] ^ rf.regs[*a as usize]) & sc.mask[*a as usize];
-        let sig = if sc.sig_xor {
-            format!("C13|sx127x/{}|{}|{}:reg{:02x} xor={:02x}", chip, sc.op, sc.sig_class, a, x)
-        } else {
-            format!("C13|sx127x/{}|{}|{}:reg{:02x}", chip, sc.op, sc.sig_class, a)
+        let (sop, scls) = match sc.attrib.iter().find(|t| t.0 == *a) {
+            Some((_, op, cls)) => (*op, cls.as_str()),
+            None => (sc.op, sc.sig_class.as_str()),
         };
+        let reg = match sc.reg_label {
+            Some(l) => l.to_string(),
+            None => format!("reg{:02x}", a),
+        };
+        let sig = if sc.sig_xor {
+            format!("C13|sx127x/{}|{}|{}:{} xor={:02x}", chip, sop, scls, reg, x)
+        } else {
+            format!("C13|sx127x/{}|{}|{}:{}", chip, sop, scls, reg)
+        };
+        if emitted.contains(&sig) {
+            continue;
+        }
         col.violation(
             &sig,
             "final register file of lora-phy differs from the reference driver's (same prior contents)",
             detail(json!({
+                "register": format!("{:02x}", a),
                 "differing_registers": diff.iter().map(|a| format!("{:02x}", a)).collect::<Vec<_>>(),
                 "prior": regs_json(&sc.prior, &diff),
                 "ours": regs_json(&o.regs, &diff),
@@ -445,13 +464,14 @@ pub fn compare(col: &mut Collector, sc: &Scenario) {
                 "reference_register_writes": rf.writes.iter().map(|(a, v)| format!("{:02x}={:02x}", a, v)).collect::<Vec<_>>(),
             })),
         );
+        emitted.push(sig);
     }
     // FIFO stream
-    if o.fifo_written != rf.fifo_written {
+    if o.fifo_written != rf.fifo_written || o.ram[..] != rf.ram[..] {
         col.violation(
             &format!("C13|sx127x/{}|{}|{}:fifo-stream", chip, sc.op, sc.sig_class),
             "bytes pushed into the FIFO differ from the reference driver's",
-            detail(json!({"ours": hex(&o.fifo_written), "reference": hex(&rf.fifo_written)})),
+            detail(json!({"ours": hex(&o.fifo_written), "reference": hex(&rf.fifo_written), "data_buffer_differs": o.ram[..] != rf.ram[..]})),
         );
     }
     // IRQ clears (documented placement; the reference clears only from its DIO handlers)
@@ -552,6 +572,23 @@ fn iq_mirror(iq: bool) -> Vec<RStep> {
     }
 }
 
+/// Minimal classes of the modulation-parameter registers.
+fn mod_attrib(m: &ModP) -> Vec<(u8, &'static str, String)> {
+    let op = "SetModulationParams";
+    let sfc = if sf_n(m.sf) == 6 { "SF6".to_string() } else { "SF7-12".to_string() };
+    vec![
+        (0x1D, op, format!("BW{}/CR4{}", bw_name(m.bw), 4 + cr_n(m.cr))),
+        (0x1E, op, format!("SF{}", sf_n(m.sf))),
+        (0x26, op, "-".to_string()),
+        (0x31, op, format!("{}/BW{}", sfc, bw_name(m.bw))),
+        (0x37, op, sfc),
+        (0x2F, op, format!("BW{}", bw_name(m.bw))),
+        (0x30, op, format!("BW{}", bw_name(m.bw))),
+        (0x36, op, format!("BW{}", bw_name(m.bw))),
+        (0x3A, op, format!("BW{}", bw_name(m.bw))),
+    ]
+}
+
 fn mod_class(m: &ModP) -> String {
     format!("SF{}/BW{}/CR4{}/LDRO{}", sf_n(m.sf), bw_name(m.bw), 4 + cr_n(m.cr), m.ldro)
 }
@@ -590,6 +627,8 @@ fn base(op: &'static str, cfg: Cfg, prior: [u8; 128], class: String, sig_class: 
         irq_clears: vec![],
         rust_may_reject: None,
         notes: vec![],
+        attrib: vec![],
+        reg_label: None,
     }
 }
 
@@ -612,6 +651,7 @@ pub fn sc_freq(cfg: Cfg, rng: &mut Prng, f: u32) -> Scenario {
     let inb = if cfg.chip.in_band(f) { "inband" } else { "outband" };
     let mut s = base("SetRfFrequency", cfg, p, format!("{}/{}MHz/{}/{}", band_of(f), f / 1_000_000, pll_round_class(f, 19), inb), pll_round_class(f, 19).into());
     s.sig_xor = false;
+    s.reg_label = Some("RegFrf");
     s.ours = vec![Step::Channel(f)];
     s.refs = vec![RStep::Freq(f)];
     s
@@ -621,6 +661,7 @@ pub fn sc_mod(cfg: Cfg, rng: &mut Prng, m: ModP, armed: bool) -> Scenario {
     let version = if armed { 0x12 } else { [0x11u8, 0x13, 0x22, 0x00][rng.below(4) as usize] };
     let p = prior(cfg.chip, rng, 0x81, version);
     let mut s = base("SetModulationParams", cfg, p, format!("{}/quirk{}", mod_class(&m), armed as u8), format!("BW{}", bw_name(m.bw)));
+    s.attrib = mod_attrib(&m);
     if sf_n(m.sf) == 5 {
         s.rust_may_reject = Some("sf5");
     }
@@ -808,6 +849,8 @@ pub fn sc_rxflow(cfg: Cfg, rng: &mut Prng, m: ModP, p: PktP, kind: RxKind) -> Sc
         format!("{}/BW{}/iq{}/boost{}", kcls, bw_name(m.bw), p.iq as u8, cfg.rx_boost as u8),
         format!("{}/iq={}", kcls, p.iq as u8),
     );
+    // registers governed by the set-up steps of the flow are attributed to those operations
+    s.attrib = mod_attrib(&m).into_iter().filter(|t| matches!(t.0, 0x26 | 0x37)).collect();
     if matches!(kind, RxKind::Duty(..)) {
         s.rust_may_reject = Some("rx_duty_cycle_unsupported");
     }
